@@ -331,7 +331,12 @@ pub fn configs(prop: &str, thorough: bool) -> Vec<(Cfg, Option<usize>)> {
                 ("cap<sum-of-two", vec![(4, 2), (3, 2)], Some((0, Some(3))), None, true),
                 ("cap<sum-of-three", vec![(4, 1), (3, 1), (1, 1)], Some((0, Some(2))), None, true),
                 ("capmax", vec![(4, MAX - 1)], Some((0, Some(MAX))), None, false),
+                // thorough only: more room under the cap (6 units) with the minter itself a genesis holder
+                ("cap9-two-holders-minter-holds", vec![(4, 2), (0, 1)], Some((0, Some(9))), None, false),
             ] {
+                if !thorough && n == "cap9-two-holders-minter-holds" {
+                    continue;
+                }
                 let mut c = Cfg::base(&format!("C13/{n}"));
                 c.actors = actors.clone();
                 c.props = p.clone();
